@@ -10,8 +10,12 @@ EXTENDS HttpCodec, Json
 
 CONSTANTS Quick   \* TRUE: only a third of the 720 orders of the required keys
 
-VARIABLE c
-vars == <<c>>
+VARIABLES
+    phase,   \* "root" -> "group" -> "case"
+    c,       \* the group key / the case
+    ok       \* the laws hold for the case (evaluated in the action: TLC caches operator
+             \* arguments there, not in invariants)
+vars == <<phase, c, ok>>
 
 ----------------------------------------------------------------------------
 (* deterministic values *)
@@ -91,16 +95,16 @@ UrlCases == {[sh |-> sh, z |-> z, bad |-> bad] :
 (* one bad character is enough where there is no broken escape *)
 UrlCasesN == {x \in UrlCases : x.sh.defect \in {"bad1", "bad2"} \/ x.bad = 103}
 
-UrlLaw(x) ==
-    LET s == RenderId(x.sh, x.z, x.bad)
-        r == UrlDecode20(s)
-    IN /\ IdDomain(s)
-       /\ IF x.sh.defect = "none" /\ Len(x.sh.units) = 20
-          THEN r = [ok |-> TRUE, v |-> IdBytes(x.sh, x.z)]
-          ELSE r = Reject
-       \* the writer's form decodes to the bytes written
-       /\ (Len(x.sh.units) = 20) =>
-             UrlDecode20(UrlEncode20(IdBytes(x.sh, x.z))) = [ok |-> TRUE, v |-> IdBytes(x.sh, x.z)]
+UrlLaw2(x, s, r) ==
+    /\ IdDomain(s)
+    /\ IF x.sh.defect = "none" /\ Len(x.sh.units) = 20
+       THEN r = [ok |-> TRUE, v |-> IdBytes(x.sh, x.z)]
+       ELSE r = Reject
+    \* the writer's form decodes to the bytes written
+    /\ (Len(x.sh.units) = 20) =>
+          UrlDecode20(UrlEncode20(IdBytes(x.sh, x.z))) = [ok |-> TRUE, v |-> IdBytes(x.sh, x.z)]
+UrlLaw1(x, s) == UrlLaw2(x, s, UrlDecode20(s))
+UrlLaw(x) == UrlLaw1(x, RenderId(x.sh, x.z, x.bad))
 
 ----------------------------------------------------------------------------
 (* query strings: orders of parameters *)
@@ -177,24 +181,22 @@ QueryText(sh, z) == WriteQuery([i \in 1..Len(sh.order) |-> ParamText(sh.order[i]
 
 QueryCases == {[sh |-> sh, z |-> z] : sh \in QueryShapesN, z \in {0, 1, 2}}
 
-QueryLaw(x) ==
-    LET q == QueryText(x.sh, x.z)
-        names == SeqRange(x.sh.order)
-    IN IF x.sh.target = "announce"
-       THEN /\ AnnounceDomain(q)
-            /\ PathDomain(L_announce \o <<QMark>> \o q)
-            /\ ParsePath(L_announce \o <<QMark>> \o q) =
-                 IF SeqRange(Req6) \subseteq names
-                 THEN [ok |-> TRUE, req |-> AnnounceOf(x.sh, x.z)]
-                 ELSE Reject
-       ELSE /\ PathDomain(L_scrape \o <<QMark>> \o q)
-            /\ LET idx == SelectSeq([i \in 1..Len(x.sh.order) |-> i],
-                                    LAMBDA i : x.sh.order[i] = "info_hash")
-               IN ParsePath(L_scrape \o <<QMark>> \o q) =
-                    [ok |-> TRUE,
-                     req |-> [kind |-> "scrape",
-                              info_hashes |-> [j \in 1..Len(idx) |->
-                                  IdBytes(IdShape(x.z + idx[j]), x.z + idx[j])]]]
+InfoHashIdx(order) == SelectSeq([i \in 1..Len(order) |-> i], LAMBDA i : order[i] = "info_hash")
+ScrapeOf(x, idx) == [kind |-> "scrape",
+                     info_hashes |-> [j \in 1..Len(idx) |-> IdBytes(IdShape(x.z + idx[j]), x.z + idx[j])]]
+
+QueryLaw2(x, q) ==
+    IF x.sh.target = "announce"
+    THEN /\ AnnounceDomain(q)
+         /\ PathDomain(L_announce \o <<QMark>> \o q)
+         /\ ParsePath(L_announce \o <<QMark>> \o q) =
+              IF SeqRange(Req6) \subseteq SeqRange(x.sh.order)
+              THEN [ok |-> TRUE, req |-> AnnounceOf(x.sh, x.z)]
+              ELSE Reject
+    ELSE /\ PathDomain(L_scrape \o <<QMark>> \o q)
+         /\ ParsePath(L_scrape \o <<QMark>> \o q) =
+              [ok |-> TRUE, req |-> ScrapeOf(x, InfoHashIdx(x.sh.order))]
+QueryLaw(x) == QueryLaw2(x, QueryText(x.sh, x.z))
 
 ----------------------------------------------------------------------------
 (* requests written by the reference writer parse back *)
@@ -230,12 +232,12 @@ ReqOf(sh, z) ==
 
 ReqCases == {[sh |-> sh, z |-> z] : sh \in ReqShapes, z \in {0, 1, 2}}
 
-ReqLaw(x) ==
-    LET r == ReqOf(x.sh, x.z)
-    IN /\ RequestDomain(r)
-       /\ IF r.kind = "announce"
-          THEN ParsePath(L_announce \o <<QMark>> \o WriteAnnounceQuery(r)) = [ok |-> TRUE, req |-> r]
-          ELSE ParsePath(L_scrape \o <<QMark>> \o WriteScrapeQuery(r)) = [ok |-> TRUE, req |-> r]
+ReqLaw2(r) ==
+    /\ RequestDomain(r)
+    /\ IF r.kind = "announce"
+       THEN ParsePath(L_announce \o <<QMark>> \o WriteAnnounceQuery(r)) = [ok |-> TRUE, req |-> r]
+       ELSE ParsePath(L_scrape \o <<QMark>> \o WriteScrapeQuery(r)) = [ok |-> TRUE, req |-> r]
+ReqLaw(x) == ReqLaw2(ReqOf(x.sh, x.z))
 
 ----------------------------------------------------------------------------
 (* replies: the reference bytes are canonical bencode and read back *)
@@ -281,24 +283,23 @@ ReplyCases == {[sh |-> sh, z |-> z] : sh \in ReplyShapes, z \in {0, 1, 2}}
 
 StrictlySorted(ks) == \A i \in 1..(Len(ks) - 1) : LexLess(ks[i], ks[i + 1])
 
-ReplyLaw(x) ==
-    LET r == ReplyOf(x.sh, x.z)
-        b == BencReply(r)
-        p == BParse(b)
-    IN /\ ReplyDomain(r)
-       /\ p.ok                                   \* valid bencode, canonical, keys ascending
-       /\ p.v.t = "dict" /\ StrictlySorted(Keys(p.v))
-       /\ DecodeReply(p.v) = CanonReply(r)       \* and denotes the reply
-       /\ r.kind = "announce" =>
-            /\ Len(Get(p.v, B_peers).b) = 6 * Len(r.peers)
-            /\ Len(Get(p.v, B_peers6).b) = 18 * Len(r.peers6)
-            /\ Keys(p.v) = <<B_complete, B_incomplete, B_interval, B_peers, B_peers6>>
-                           \o (IF r.warning = <<>> THEN <<>> ELSE <<B_warning>>)
-       /\ r.kind = "scrape" =>
-            /\ Keys(p.v) = <<B_files>>
-            /\ StrictlySorted(Keys(Get(p.v, B_files)))
-            /\ \A i \in 1..Len(Get(p.v, B_files).kv) :
-                 Keys(Get(p.v, B_files).kv[i][2]) = <<B_complete, B_downloaded, B_incomplete>>
+ReplyLaw3(r, p) ==
+    /\ ReplyDomain(r)
+    /\ p.ok                                   \* valid bencode, canonical, keys ascending
+    /\ p.v.t = "dict" /\ StrictlySorted(Keys(p.v))
+    /\ DecodeReply(p.v) = CanonReply(r)       \* and denotes the reply
+    /\ r.kind = "announce" =>
+         /\ Len(Get(p.v, B_peers).b) = 6 * Len(r.peers)
+         /\ Len(Get(p.v, B_peers6).b) = 18 * Len(r.peers6)
+         /\ Keys(p.v) = <<B_complete, B_incomplete, B_interval, B_peers, B_peers6>>
+                        \o (IF r.warning = <<>> THEN <<>> ELSE <<B_warning>>)
+    /\ r.kind = "scrape" =>
+         /\ Keys(p.v) = <<B_files>>
+         /\ StrictlySorted(Keys(Get(p.v, B_files)))
+         /\ \A i \in 1..Len(Get(p.v, B_files).kv) :
+              Keys(Get(p.v, B_files).kv[i][2]) = <<B_complete, B_downloaded, B_incomplete>>
+ReplyLaw2(r) == ReplyLaw3(r, BParse(BencReply(r)))
+ReplyLaw(x) == ReplyLaw2(ReplyOf(x.sh, x.z))
 
 (* the validating reader does reject what is not canonical *)
 ReaderRejects ==
@@ -334,17 +335,30 @@ BDictUnsorted(pairs) == <<100>> \o FlatPairs(pairs, 1) \o <<101>>
 
 Cases == UrlCasesN \cup QueryCases \cup ReqCases \cup ReplyCases
 
-Init == c \in Cases
-Next == UNCHANGED c
+LawsOf(x) ==
+    CASE x.sh.k = "url"   -> UrlLaw(x)
+      [] x.sh.k = "query" -> QueryLaw(x)
+      [] x.sh.k = "req"   -> ReqLaw(x)
+      [] x.sh.k = "reply" -> ReplyLaw(x)
+
+(* cases are spread over groups so that the workers share them *)
+GroupKey(x) == IF x.sh.k = "query" THEN <<"query", x.z, x.sh.order[1]>> ELSE <<x.sh.k, x.z, "">>
+GroupKeys == {GroupKey(x) : x \in Cases}
+
+Init == phase = "root" /\ c = <<>> /\ ok = TRUE
+Next ==
+    \/ /\ phase = "root"
+       /\ \E g \in GroupKeys : phase' = "group" /\ c' = g /\ ok' = TRUE
+    \/ /\ phase = "group"
+       /\ \E x \in Cases : /\ GroupKey(x) = c
+                            /\ phase' = "case" /\ c' = x /\ ok' = LawsOf(x)
 Spec == Init /\ [][Next]_vars
 
-Laws ==
-    CASE c.sh.k = "url"   -> UrlLaw(c)
-      [] c.sh.k = "query" -> QueryLaw(c)
-      [] c.sh.k = "req"   -> ReqLaw(c)
-      [] c.sh.k = "reply" -> ReplyLaw(c)
+(* the laws hold for every case *)
+Laws == ok
 
 (* every shape is printed once (with the first filling) *)
-FirstZ == CASE c.sh.k = "url" -> 2 [] OTHER -> 0
-Emit == (c.z = FirstZ /\ (c.sh.k = "url" => c.bad = 103)) => PrintT(<<"CASE", ToJson(c.sh)>>)
+FirstZ(x) == CASE x.sh.k = "url" -> 2 [] OTHER -> 0
+Emit == (phase = "case" /\ c.z = FirstZ(c) /\ (c.sh.k = "url" => c.bad = 103))
+            => PrintT(<<"CASE", ToJson(c.sh)>>)
 =============================================================================
